@@ -351,6 +351,52 @@ FILTER_RE = re.compile(
     r"if\s+last_seq\s*\.map\(\s*\|\s*last\s*\|\s*event\.seq\s*(<=|<|>=|>|==|!=)\s*last\s*\)\s*\.unwrap_or\(\s*(true|false)\s*\)\s*\{\s*return\s+None\s*;\s*\}")
 
 
+LIVE_FILTER_RE = re.compile(
+    r"if\s+last_seq\s*\.map\(\s*\|\s*last\s*\|\s*event\.seq\s*(<=|<|>=|>|==|!=)\s*last\s*\)\s*\.unwrap_or\(\s*(true|false)\s*\)\s*\{\s*continue\s*;\s*\}")
+
+
+def read_live_frames(src):
+    """the shared live half of the three handlers (fn live_frames): filter, own-stream filter, what happens on Lagged"""
+    sp = fn_span(src, "live_frames")
+    if not sp:
+        return None, "fn live_frames not found"
+    body = src[sp[0]:sp[1]]
+    if len(re.findall(r"\.\s*recv\(\)\s*\.\s*await", body)) != 1:
+        return None, "live_frames: not exactly one receiver.recv().await"
+    fl = LIVE_FILTER_RE.findall(body)
+    if len(fl) == 0:
+        if re.search(r"event\.seq\s*(<=|<|>=|>|==|!=)", body):
+            return None, "live_frames: filter on event.seq in an unknown shape"
+        flt = "FilterNone"
+    elif len(fl) == 1:
+        op, dflt = fl[0]
+        if dflt != "false":
+            return None, f"live_frames: live filter with unwrap_or({dflt})"
+        flt = {"<=": "FilterGtLast", "<": "FilterGeLast"}.get(op)
+        if flt is None:
+            return None, f"live_frames: live filter drops `event.seq {op} last` (not modelled)"
+    else:
+        return None, f"live_frames: {len(fl)} seq filters"
+    om = re.search(r"if\s+stream_id\s*\.as_deref\(\)\s*\.is_some_and\(\s*\|\s*id\s*\|\s*event\.session_id\s*!=\s*id\s*\)\s*\{\s*continue\s*;\s*\}", body)
+    sm = LIVE_FILTER_RE.search(body)
+    own = bool(om) and (not sm or om.start() < sm.start())
+    # the frame that goes out is the one that passed the filters, and `last_seq` then names it (running last)
+    ret = re.search(r"return\s+Some\(\s*\(\s*frame\s*,", body)
+    upd = re.search(r"\blast_seq\s*=\s*Some\(\s*event\.seq\s*\)\s*;", body)
+    running = bool(ret and upd and (not sm or sm.end() < upd.start() < ret.start()))
+    # Lagged: refill from the history, or skipped
+    lag_arms = re.findall(r"Err\(\s*(?:broadcast::error::|error::)?RecvError::Lagged\(\s*_\w*\s*\)\s*\)\s*=>\s*(\{[^{}]*\}|[^,{}]*,)", body)
+    catch_all = re.search(r"Err\(\s*_\w*\s*\)\s*=>", body)
+    if len(lag_arms) == 1 and not catch_all and re.fullmatch(r"\{?\s*pending\s*\.\s*extend\(\s*refill\(\)\s*\.\s*await\s*\)\s*[;,]?\s*\}?", lag_arms[0].strip()):
+        # the refilled frames must go through the same filters: they are queued in `pending`, which the loop pops first
+        pops = re.search(r"let\s+Some\(\s*event\s*\)\s*=\s*pending\s*\.\s*pop_front\(\)\s*else\s*\{", body)
+        push = re.search(r"Ok\(\s*event\s*\)\s*=>\s*pending\s*\.\s*push_back\(\s*event\s*\)", body)
+        lag = "LagRefill" if (pops and push and running and flt == "FilterGtLast") else "LagSkip"
+    else:
+        lag = "LagSkip"
+    return {"filter": flt, "own": own, "lag": lag, "running": running}, None
+
+
 def read_handler(src, fname, snap_re, shared_channel=False):
     sp = fn_span(src, fname)
     if not sp:
@@ -358,25 +404,53 @@ def read_handler(src, fname, snap_re, shared_channel=False):
     body = src[sp[0]:sp[1]]
     subs = [m.start() for m in re.finditer(r"\.subscribe\(\)", body)]
     snaps = [m.start() for m in re.finditer(snap_re, body)]
-    if len(subs) != 1 or len(snaps) != 1:
-        return None, f"{fname}: {len(subs)} subscribe / {len(snaps)} snapshot calls (expected 1 / 1)"
+    helper = re.search(r"let\s+live_stream\s*=\s*live_frames\(\s*(\w+)\s*,\s*last_seq\s*,\s*([^,]+?)\s*,\s*move\s*\|\|\s*\{", body)
+    n_snaps = 2 if helper else 1
+    if len(subs) != 1 or len(snaps) != n_snaps:
+        return None, f"{fname}: {len(subs)} subscribe / {len(snaps)} snapshot calls (expected 1 / {n_snaps})"
     so = "SubThenSnap" if subs[0] < snaps[0] else "SnapThenSub"
     # the receiver that is subscribed is the one the live stream reads
     rm = re.search(r"let\s+(\w+)\s*=\s*\w+\.subscribe\(\)\s*;", body)
-    if not rm or not re.search(r"BroadcastStream::new\(\s*" + rm.group(1) + r"\s*\)", body):
-        return None, f"{fname}: the subscribed receiver is not the one wrapped in BroadcastStream::new"
+    if not rm:
+        return None, f"{fname}: the subscribed receiver is not bound"
     # history binding and where last_seq comes from
     pm = re.search(r"let\s+past\s*=", body)
     if not pm or not (pm.start() < snaps[0] < pm.start() + 80):
         return None, f"{fname}: the snapshot is not bound to `past`"
     if not re.search(r"let\s+last_seq\s*=\s*past\.last\(\)\.map\(\s*\|\s*event\s*\|\s*event\.seq\s*\)\s*;", body):
         return None, f"{fname}: `let last_seq = past.last().map(|event| event.seq);` not found"
-    if not re.search(r"let\s+last_seq_live\s*=\s*last_seq\s*;", body) or not re.search(r"let\s+last_seq\s*=\s*last_seq_live\s*;", body):
-        return None, f"{fname}: the live filter's last_seq is not the history's last_seq"
     if not re.search(r"tokio_stream::iter\(\s*past\s*\)", body):
         return None, f"{fname}: the history is not replayed with tokio_stream::iter(past)"
     if not re.search(r"let\s+stream\s*=\s*past_stream\.chain\(\s*live_stream\s*\)\s*;", body) or not re.search(r"Sse::new\(\s*stream\s*\)", body):
         return None, f"{fname}: body is not Sse::new(past_stream.chain(live_stream))"
+    if helper:
+        # ---- the live half is fn live_frames(receiver, last_seq, stream id, refill)
+        if helper.group(1) != rm.group(1):
+            return None, f"{fname}: the receiver handed to live_frames is not the subscribed one"
+        if not (helper.start() < snaps[1]):
+            return None, f"{fname}: the second history read is not the refill closure of live_frames"
+        lf, why = read_live_frames(src)
+        if lf is None:
+            return None, why
+        sid = helper.group(2).strip()
+        if shared_channel:
+            if sid != "Some(thread_id.clone())" or not lf["own"]:
+                return None, f"{fname}: shared channel but live_frames is not given the thread id / does not drop other streams' frames first"
+            if not re.search(r"Path\(\s*thread_id\s*\)", src[sp[0] - 400:sp[0]]):
+                return None, f"{fname}: thread_id is not the path parameter"
+        elif sid != "None":
+            return None, f"{fname}: live_frames is given a stream id `{sid}` on a private channel"
+        # the refill closure re-reads the SAME history source as the attach snapshot
+        clos = body[helper.end():]
+        clos = clos[:clos.find("});") if clos.find("});") >= 0 else len(clos)]
+        if len(re.findall(snap_re, clos)) != 1:
+            return None, f"{fname}: the refill closure does not re-read the history with the attach snapshot's call"
+        return {"sorder": so, "filter": lf["filter"], "lag_swallowed": lf["lag"] != "LagRefill", "lag": lf["lag"], "own_filter": shared_channel}, None
+    # ---- the live half is written out in the handler (BroadcastStream + filter_map)
+    if not re.search(r"BroadcastStream::new\(\s*" + rm.group(1) + r"\s*\)", body):
+        return None, f"{fname}: the subscribed receiver is not the one wrapped in BroadcastStream::new"
+    if not re.search(r"let\s+last_seq_live\s*=\s*last_seq\s*;", body) or not re.search(r"let\s+last_seq\s*=\s*last_seq_live\s*;", body):
+        return None, f"{fname}: the live filter's last_seq is not the history's last_seq"
     live = body[body.find("BroadcastStream::new("):]
     fl = FILTER_RE.findall(live)
     if len(fl) == 0:
@@ -404,9 +478,9 @@ def read_handler(src, fname, snap_re, shared_channel=False):
             return None, f"{fname}: shared channel but no `if event.session_id != thread_id {{ return None; }}` before the seq filter"
         if not re.search(r"let\s+thread_id_live\s*=\s*thread_id\.clone\(\)\s*;", body) or not re.search(r"let\s+thread_id\s*=\s*thread_id_live\.clone\(\)\s*;", live):
             return None, f"{fname}: the id the live filter compares with is not the requested thread id"
-    # a lagged receiver is skipped silently (model: NoLag hypothesis / c06_lag_refuted)
+    # a lagged receiver is skipped silently (model: LagSkip; NoLag hypothesis / c06_lag_refuted)
     lag_swallowed = bool(re.search(r"Err\(_\)\s*=>\s*None", live))
-    return {"sorder": so, "filter": flt, "lag_swallowed": lag_swallowed, "own_filter": shared_channel}, None
+    return {"sorder": so, "filter": flt, "lag_swallowed": lag_swallowed, "lag": "LagSkip", "own_filter": shared_channel}, None
 
 
 # ----------------------------------------------------------------- generate
@@ -549,6 +623,16 @@ def generate(repo):
     L.append("Proof. vm_compute. reflexivity. Qed.")
     L.append("Lemma gen_stream_order_ok : wf_kinds gen_kinds = true.")
     L.append("Proof. vm_compute. reflexivity. Qed.")
+    # ---- what each handler does when its receiver lagged
+    L.append("")
+    L.append("(* what the live half of each handler does on RecvError::Lagged: LagRefill = re-read the history and carry on after")
+    L.append("   the last seq delivered (fn live_frames, running `last_seq`), LagSkip = carry on with what the channel still holds *)")
+    pols = [(hand["lag"] if hand else "LagSkip") for _, _, _, hand, _ in rows]
+    L.append("Definition gen_lag_policy : list lagpolicy := [" + "; ".join(pols) + "].")
+    L.append("Lemma gen_lag_policy_ok : forallb lag_refills gen_lag_policy = true.")
+    L.append("Proof. vm_compute. reflexivity. Qed.")
+    L.append("Lemma gen_lag_policy_all : length gen_lag_policy = 3%nat.")
+    L.append("Proof. vm_compute. reflexivity. Qed.")
     # ---- the history buffers are only ever pushed to (c06_history_monotone) / the thread handler's history source
     buf, rep, notes2 = extract_more(repo)
     cm = lambda t: t.replace("*)", "* )").replace("(*", "( *")
@@ -636,7 +720,7 @@ def selftest():
     e, _ = h(ST_SNAP, ST_SUB, "<=")
     f, _ = h(ST_SUB, ST_SNAP, "<")
     g, why = h(ST_SUB, ST_SNAP, "==")
-    assert d == {"sorder": "SubThenSnap", "filter": "FilterGtLast", "lag_swallowed": True, "own_filter": False}, d
+    assert d == {"sorder": "SubThenSnap", "filter": "FilterGtLast", "lag_swallowed": True, "lag": "LagSkip", "own_filter": False}, d
     k, why_k = read_handler(ST_HANDLER.replace("%S1%", ST_SUB).replace("%S2%", ST_SNAP).replace("%OP%", "<="), "stream_events", r"\.events_snapshot\(\)", shared_channel=True)
     assert k is None and "shared channel" in why_k, (k, why_k)
     assert e and e["sorder"] == "SnapThenSub", e
@@ -684,6 +768,35 @@ def selftest():
     assert mk("0", "<", "expected_seq.saturating_add(1)")[0] is None
     assert mk("0", ">", "event.seq + 1")[0] is None
     assert read_replay_check(tr.replace("%F%", "0").replace("%OP%", "!=").replace("%UP%", "expected_seq + 1"), cont.replace("return Ok(events);", "let _ = events;"))[0] is None
+    # live_frames (the repaired live half)
+    lf = """fn live_frames<F, Fut>(receiver: R, last_seq: Option<u64>, stream_id: Option<String>, refill: F) -> impl Stream {
+        futures_util::stream::unfold((receiver, last_seq, pending, stream_id, refill), |(mut receiver, mut last_seq, mut pending, stream_id, refill)| async move {
+            loop {
+                let Some(event) = pending.pop_front() else {
+                    match receiver.recv().await {
+                        Ok(event) => pending.push_back(event),
+                        %LAG%
+                        Err(broadcast::error::RecvError::Closed) => return None,
+                    }
+                    continue;
+                };
+                if stream_id.as_deref().is_some_and(|id| event.session_id != id) { continue; }
+                if last_seq.map(|last| event.seq %OP% last).unwrap_or(false) { continue; }
+                let Ok(json) = serde_json::to_string(&event) else { continue; };
+                %UPD%
+                let frame = Ok::<SseEvent, Infallible>(SseEvent::default().data(json));
+                return Some((frame, (receiver, last_seq, pending, stream_id, refill)));
+            }
+        })
+    }"""
+    LAG = "Err(broadcast::error::RecvError::Lagged(_)) => { pending.extend(refill().await); }"
+    UPD = "last_seq = Some(event.seq);"
+    mkl = lambda lag, op, upd: read_live_frames(lf.replace("%LAG%", lag).replace("%OP%", op).replace("%UPD%", upd))[0]
+    assert mkl(LAG, "<=", UPD) == {"filter": "FilterGtLast", "own": True, "lag": "LagRefill", "running": True}
+    assert mkl("Err(broadcast::error::RecvError::Lagged(_)) => {}", "<=", UPD)["lag"] == "LagSkip"
+    assert mkl("Err(broadcast::error::RecvError::Lagged(_)) => continue,", "<=", UPD)["lag"] == "LagSkip"
+    assert mkl(LAG, "<=", "")["lag"] == "LagSkip"          # refill without the running last_seq would duplicate
+    assert mkl(LAG, "<", UPD) == {"filter": "FilterGeLast", "own": True, "lag": "LagSkip", "running": True}
     print("stream_order.py selftest ok")
 
 
@@ -704,7 +817,7 @@ def main():
             f.write(text)
     for code, name, prod, hand, cap in rows:
         print(f"stream_order: {name}: producer={prod['order'] if prod else '?'} span={prod['span'] if prod else '?'} handler={hand['sorder'] if hand else '?'} "
-              f"filter={hand['filter'] if hand else '?'} cap={cap}")
+              f"filter={hand['filter'] if hand else '?'} lagged={hand['lag'] if hand else '?'} cap={cap}")
     if buf is not None:
         kinds = {}
         for _, _, op, _ in buf["ops"]:
